@@ -318,7 +318,11 @@ def run_c10(tier, seed):
             if obs_key(o) != model_key(m):
                 oc.disagreements.append(dict(rec, what='collection outcome', impl=_brief(o), model=_brief_model(m)))
         # sorting MosFile objects
-        objs = [impl.load(t) for t in docs]
+        try:
+            objs = [impl.load(t) for t in docs]
+        except Exception as e:  # noqa: BLE001
+            oc.disagreements.append({'kind': 'load', 'what': 'a generated document is not classified (the model classifies it)', 'impl': impl.err_name(e)})
+            continue
         shuffled = objs[:]
         rng.shuffle(shuffled)
         ids = [m.message_id for m in sorted(shuffled)]
